@@ -64,6 +64,29 @@ CHECKS["C06"] = dict(
          "constraints must equal constraint/scale exactly.",
     design="4/C06")
 
+CHECKS["C19"] = dict(
+    technique="Hypothesis-generated exact spacetimes with default fluid "
+              "state -> two-resolution convergence-order oracle against "
+              "exact nabla_mu n_nu, -K, -A_ij, D_i ln(alpha) from the 4D "
+              "reference",
+    text="Every kinematic key (4-velocity, its full 4x4 gradient by block, "
+         "acceleration incl. its component along n, expansion, shear incl. "
+         "time components, vorticity, s_RicciS_u on vacuum data) is compared "
+         "at two resolutions on spacetimes with time-dependent lapse and "
+         "generic shift.",
+    design="4/C19")
+CHECKS["C20"] = dict(
+    technique="Hypothesis-generated (s,l,m), quadrature grids, band-limited "
+              "coefficient sets, interpolation grids/targets and injected "
+              "Psi4 modes; oracles: independent Wigner-d implementation "
+              "(self-tested against Goldberg Eq 3.1 in 40-digit arithmetic "
+              "and scipy), exact Gauss-Legendre quadrature, round trips, "
+              "three-resolution convergence for Psi4_lm",
+    text="Orthonormality, values/phase, coefficient/reconstruct round trips, "
+         "interpolation exactness and bounds refusal, and recovery of an "
+         "injected pure harmonic by Psi4_lm with converging error.",
+    design="4/C20")
+
 NOT_YET = "check not built yet in this session (see DESIGN.md section 4)"
 
 
